@@ -820,6 +820,50 @@ def _stmt_containing(loop, node):
     return None
 
 
+def _level_loop(ex, lp):
+    """(iteration term, names of the loop variables) of the level loop.  An index loop
+    `for k in range(len(A) - 1, -1, -1): a, b = A[k], B[k]; ...` is read as `for a, b in zip(reversed(A), reversed(B))`
+    (`range(len(A))` / `reversed(range(len(A)))` likewise), provided the counter is used for nothing else."""
+    it = ex.term(lp.iter)
+    tgt = [unparse(x) for x in lp.target.elts] if isinstance(lp.target, ast.Tuple) else []
+    if not (isinstance(lp.target, ast.Name) and lp.body):
+        return it, tgt
+    k = lp.target.id
+    pairs = []
+    for st in lp.body:
+        if not isinstance(st, ast.Assign) or len(st.targets) != 1:
+            break
+        t_, v_ = st.targets[0], st.value
+        ps = list(zip(t_.elts, v_.elts)) if isinstance(t_, ast.Tuple) and isinstance(v_, ast.Tuple) and len(t_.elts) == len(v_.elts) else [(t_, v_)]
+        if not all(isinstance(a_, ast.Name) and isinstance(b_, ast.Subscript) and isinstance(b_.slice, ast.Name) and b_.slice.id == k for a_, b_ in ps):
+            break
+        pairs += ps
+    uses = sum(1 for n in ast.walk(lp) if isinstance(n, ast.Name) and n.id == k and isinstance(n.ctx, ast.Load))
+    if not pairs or uses != len(pairs):
+        return it, tgt
+    seqs = [unparse(b_.value) for _a, b_ in pairs]
+    r = lp.iter
+    rev = False
+    if isinstance(r, ast.Call) and isinstance(r.func, ast.Name) and r.func.id == "reversed" and len(r.args) == 1:
+        rev, r = True, r.args[0]
+    if not (isinstance(r, ast.Call) and isinstance(r.func, ast.Name) and r.func.id == "range" and not r.keywords):
+        return it, tgt
+    lens = {ex.term_of_source(f"len({q})", lp).key() for q in seqs}
+    lens1 = {ex.term_of_source(f"len({q}) - 1", lp).key() for q in seqs}
+    a = r.args
+    m1 = lambda z: isinstance(z, ast.UnaryOp) and isinstance(z.op, ast.USub) and isinstance(z.operand, ast.Constant) and z.operand.value == 1
+    if len(a) == 1 and ex.term(a[0]).key() in lens:
+        pass
+    elif len(a) == 2 and isinstance(a[0], ast.Constant) and a[0].value == 0 and ex.term(a[1]).key() in lens:
+        pass
+    elif len(a) == 3 and m1(a[1]) and m1(a[2]) and ex.term(a[0]).key() in lens1 and not rev:
+        rev = True
+    else:
+        return it, tgt
+    src = "zip(" + ", ".join(f"reversed({q})" if rev else q for q in seqs) + ")"
+    return ex.term_of_source(src, lp), [a_.id for a_, _b in pairs]
+
+
 def _schedule(repo, col, R="R-C01-schedule"):
     for fname, want_rev, pre, loop_order, post in (
         ("_triang_branched", True, [], ["_triang_level", "_eliminate_children_lower", "_eliminate_parents_upper"], ["_triang_level"]),
@@ -833,7 +877,7 @@ def _schedule(repo, col, R="R-C01-schedule"):
             continue
         lp = loops[0]
         i = fi.node.body.index(lp)
-        it = ex.term(lp.iter)
+        it, tgt_names = _level_loop(ex, lp)
         # zip(children, parents) both reversed (or both not)
         ok_zip = it.op == "call" and it.name == "zip" and len(it.args) == 2
 
@@ -853,7 +897,7 @@ def _schedule(repo, col, R="R-C01-schedule"):
                   f"{fname} must visit the levels {'from the leaves to the root' if want_rev else 'from the root to the leaves'}; "
                   f"it iterates {it.short(120)}", node=lp)
         names = (a0.name if a0.op == "attr" else None, a1.name if a1.op == "attr" else None)
-        tgt = [unparse(x) for x in lp.target.elts] if isinstance(lp.target, ast.Tuple) else []
+        tgt = tgt_names
         # the loop variables by what they are bound to (whatever they are called)
         kind_of = {}
         if len(tgt) == 2 and set(names) == {"children_in_level", "parents_in_level"}:
